@@ -189,11 +189,15 @@ impl HotReloader {
     // been logged.
 
     pub(crate) fn add_asset(&self, id: SharedString, deps: Dependencies, typ: Type) {
+        #[cfg(assets_manager_verif)]
+        crate::verif::emit("SendAdd", || crate::verif::key(&id, typ.type_id));
         let infos = AssetReloadInfos::from_type(id, deps, typ);
         let _ = self.sender.send(CacheMessage::AddAsset(infos));
     }
 
     pub(crate) fn clear(&self) {
+        #[cfg(assets_manager_verif)]
+        crate::verif::emit("SendClear", String::new);
         let _ = self.sender.send(CacheMessage::Clear);
     }
 
@@ -216,6 +220,8 @@ impl HotReloader {
     }
 
     pub(crate) fn send_static(&'static self, map: &'static crate::cache::AssetMap) {
+        #[cfg(assets_manager_verif)]
+        crate::verif::emit("SendStatic", String::new);
         let _ = self.sender.send(CacheMessage::Static(map, self));
     }
 }
